@@ -50,6 +50,12 @@ def _worktree(name):
 	for f in os.listdir('/repo/src/gambit/_cython'):
 		if f.endswith('.so') or f.endswith('.c'):
 			shutil.copy(os.path.join('/repo/src/gambit/_cython', f), os.path.join(d, 'src/gambit/_cython', f))
+	# git-ignored generated test data (gzip copies of the query genomes) that the tests create on demand
+	ign = sh(['git', '-C', '/repo', 'ls-files', '--others', '--ignored', '--exclude-standard', 'tests/data']).stdout.split('\n')
+	for rel in ign:
+		if rel and os.path.isfile(os.path.join('/repo', rel)):
+			os.makedirs(os.path.dirname(os.path.join(d, rel)), exist_ok=True)
+			shutil.copy(os.path.join('/repo', rel), os.path.join(d, rel))
 	return d
 
 
@@ -64,6 +70,14 @@ def _run_demo(wt, sid, orig_dir_hint=None):
 	# demos were written inside /tmp/gw-<PROP>; point them at the verification worktree
 	prop = sid.split('-')[0]
 	src = src.replace(f'/tmp/gw-{prop}', wt)
+	# data files the sub-agent created next to the test data (untracked in its worktree)
+	agent = f'/tmp/gw-{prop}'
+	if os.path.isdir(agent):
+		others = sh(['git', '-C', agent, 'ls-files', '--others', '--exclude-standard', 'tests']).stdout.split('\n')
+		for rel in others:
+			if rel and os.path.isfile(os.path.join(agent, rel)) and not os.path.exists(os.path.join(wt, rel)):
+				os.makedirs(os.path.dirname(os.path.join(wt, rel)), exist_ok=True)
+				shutil.copy(os.path.join(agent, rel), os.path.join(wt, rel))
 	demo = os.path.join(wt, 'deliver', 'demo.py')
 	open(demo, 'w').write(src)
 	env = dict(os.environ, PYTHONPATH=os.path.join(wt, 'src'), PYTHONDONTWRITEBYTECODE='1')
